@@ -2,6 +2,7 @@
 Helper lemmas for C18: support of the W state.
 -/
 import NumqiProofs.Catalogue
+import NumqiProofs.Dicke
 
 set_option linter.unusedSectionVars false
 
@@ -56,19 +57,19 @@ theorem ketGHZ_norm (n : ℕ) (hn : n ≠ 0) : ∑ x ∈ Finset.range (2 ^ n), (
   have b : 2 ^ n - 1 < 2 ^ n := by omega
   simp [a, b]; norm_num
 
-theorem card_filter_range (n : ℕ) (p : ℕ → Bool) :
-    ((Finset.range n).filter (fun x => p x = true)).card = ((List.range n).filter p).length := by
-  simp [Finset.card, Finset.filter, Finset.range, Multiset.range]
-
-theorem ketDicke_norm_partial (klist : List ℕ) (h : dickeCount klist ≠ 0) :
+/-- Dicke states are normalised for every occupation list (bridge to `cnt_eq_multinomial` of the C17 development) -/
+theorem ketDicke_norm (klist : List ℕ) :
     ∑ x ∈ Finset.range (klist.length ^ klist.sum), (ketDicke klist x).sq = 1 := by
-  have hq : (dickeCount klist : ℚ) ≠ 0 := Nat.cast_ne_zero.mpr h
-  have : ∀ x, (ketDicke klist x).sq = if dickeMatch klist x = true then 1 / (dickeCount klist : ℚ) else 0 := by
-    intro x; unfold ketDicke; split_ifs <;> simp [SAmp.zero]
-  simp only [this]
-  rw [← Finset.sum_filter, Finset.sum_const, card_filter_range]
-  show ((List.filter (dickeMatch klist) (List.range (klist.length ^ klist.sum))).length : ℕ) • (1 / (dickeCount klist : ℚ)) = 1
-  rw [show (List.filter (dickeMatch klist) (List.range (klist.length ^ klist.sum))).length = dickeCount klist from rfl]
-  simp [hq]
+  have hM : (Dicke.multinomial klist : ℚ) ≠ 0 := by exact_mod_cast (Dicke.multinomial_pos klist).ne'
+  have h := Dicke.cnt_eq_multinomial klist.length klist.sum klist rfl rfl
+  have : ∀ x ∈ Finset.range (klist.length ^ klist.sum), (ketDicke klist x).sq
+      = ((if Dicke.occ klist.length (Dicke.digits klist.length klist.sum x) = klist then 1 else 0 : ℕ) : ℚ)
+          * (1 / (Dicke.multinomial klist : ℚ)) := by
+    intro x _; unfold ketDicke; split <;> simp [SAmp.zero]
+  rw [Finset.sum_congr rfl this, ← Finset.sum_mul, ← Nat.cast_sum]
+  have hc : (∑ x ∈ Finset.range (klist.length ^ klist.sum),
+      if Dicke.occ klist.length (Dicke.digits klist.length klist.sum x) = klist then 1 else 0)
+      = Dicke.cnt klist.length klist.sum klist := rfl
+  rw [hc, h]; field_simp
 
 end Numqi.Catalogue
